@@ -55,6 +55,29 @@ Proof.
   - replace (Z.to_nat n) with (S (Z.to_nat (n - 1))) by lia. cbn [firstn]. rewrite IH. reflexivity.
 Qed.
 
+Lemma drop_skipn l : forall n, drop n l = skipn (Z.to_nat n) l.
+Proof.
+  induction l as [|x r IH]; intros n; cbn [drop]; [rewrite skipn_nil; reflexivity|].
+  destruct (Z.leb_spec n 0).
+  - replace (Z.to_nat n) with 0%nat by lia. reflexivity.
+  - replace (Z.to_nat n) with (S (Z.to_nat (n - 1))) by lia. cbn [skipn]. apply IH.
+Qed.
+
+Lemma take_drop n l : take n l ++ drop n l = l.
+Proof. rewrite take_firstn, drop_skipn. apply firstn_skipn. Qed.
+
+Lemma take_all n l : len l <= n -> take n l = l.
+Proof. intros H. rewrite take_firstn. apply firstn_all2. unfold len in H. lia. Qed.
+
+Lemma take_app_exact a r : take (len a) (a ++ r) = a.
+Proof. rewrite take_firstn. apply firstn_app_exact. unfold len. lia. Qed.
+
+Lemma drop_app_exact a r : drop (len a) (a ++ r) = r.
+Proof. rewrite drop_skipn. apply skipn_app_exact. unfold len. lia. Qed.
+
+Lemma wf_take n l : wf_bytes l -> wf_bytes (take n l).
+Proof. rewrite take_firstn. apply wf_firstn. Qed.
+
 (* ================================================================== big-endian integers *)
 Ltac Zify.zify_post_hook ::= Z.div_mod_to_equations.
 
@@ -752,19 +775,30 @@ Proof.
   rewrite read_len_enc by (unfold two31 in *; lia).
   destruct (Z.leb_spec (len (encode_mpub bodies)) 0); [lia|].
   destruct (Z.gtb_spec (len (encode_mpub bodies)) max_body); [lia|].
-  apply read_mpub_encode. unfold batch_ok. split; [assumption|]. split; [assumption|].
+  rewrite take_app_exact, drop_app_exact.
+  rewrite <- (app_nil_r (encode_mpub bodies)) at 1.
+  rewrite read_mpub_encode; [reflexivity|].
+  unfold batch_ok. split; [assumption|]. split; [assumption|].
   pose proof (count_check_implied _ _ _ Hall Hfit). pose proof (encode_mpub_msgs_len _ _ Hall). lia.
 Qed.
 
 Theorem mpub_tcp_inv max_msg max_body s bodies rest : wf_bytes s ->
   mpub_tcp max_msg max_body s = RdOk bodies rest ->
-  exists n, s = be_enc 4 (u32_of_z n) ++ encode_mpub bodies ++ rest /\ batch_ok max_msg max_body bodies.
+  exists n, s = be_enc 4 (u32_of_z n) ++ encode_mpub bodies ++ rest /\ batch_ok max_msg max_body bodies /\
+            len (encode_mpub bodies) <= n <= max_body.
 Proof.
   intros Hwf. unfold mpub_tcp. destruct (read_len s) as [[n s1]|] eqn:E1; [|discriminate].
   destruct (read_len_inv _ _ _ Hwf E1) as (Es & Hn & _).
   destruct (Z.leb_spec n 0); [discriminate|]. destruct (Z.gtb_spec n max_body); [discriminate|].
-  intros E. assert (Hwf1 : wf_bytes s1) by (rewrite Es in Hwf; apply wf_bytes_app in Hwf; tauto).
-  destruct (read_mpub_inv _ _ _ _ _ Hwf1 E) as (Es1 & Hb). exists n. rewrite <- Es1. auto.
+  destruct (read_mpub max_msg max_body (take n s1)) as [bs r|e] eqn:E; [|discriminate].
+  intros [= -> <-].
+  assert (Hwf1 : wf_bytes s1) by (rewrite Es in Hwf; apply wf_bytes_app in Hwf; tauto).
+  destruct (read_mpub_inv _ _ _ _ _ (wf_take n s1 Hwf1) E) as (Es1 & Hb). exists n.
+  split; [|split; [assumption|]].
+  - rewrite (app_assoc (encode_mpub bodies) r). rewrite <- Es1. rewrite take_drop. exact Es.
+  - assert (Hl : len (take n s1) <= n).
+    { rewrite take_firstn. unfold len. pose proof (firstn_le_length (Z.to_nat n) s1). lia. }
+    rewrite Es1, len_app in Hl. pose proof (len_nonneg r). lia.
 Qed.
 
 (* ================================================================== HTTP publish bodies *)
@@ -908,20 +942,27 @@ Qed.
 
 (* binary /mpub is readMPUB on the request body *)
 Theorem http_mpub_binary_accepts max_msg max_body cl bodies : cl <= max_body ->
-  batch_ok max_msg max_body bodies ->
+  batch_ok max_msg max_body bodies -> len (encode_mpub bodies) <= max_body ->
   http_mpub_binary max_msg max_body cl (encode_mpub bodies) = HOk bodies.
 Proof.
-  intros Hcl Hb. unfold http_mpub_binary. destruct (Z.gtb_spec cl max_body); [lia|].
+  intros Hcl Hb Hfit. unfold http_mpub_binary. destruct (Z.gtb_spec cl max_body); [lia|].
+  rewrite take_all by assumption.
   rewrite <- (app_nil_r (encode_mpub bodies)). rewrite read_mpub_encode by assumption. reflexivity.
 Qed.
 
 Theorem http_mpub_binary_inv max_msg max_body cl body bodies : wf_bytes body ->
   http_mpub_binary max_msg max_body cl body = HOk bodies ->
-  exists rest, body = encode_mpub bodies ++ rest /\ batch_ok max_msg max_body bodies.
+  exists rest, body = encode_mpub bodies ++ rest /\ batch_ok max_msg max_body bodies /\
+               len (encode_mpub bodies) <= Z.max 0 max_body.
 Proof.
   intros Hwf. unfold http_mpub_binary. destruct (cl >? max_body); [discriminate|].
-  destruct (read_mpub max_msg max_body body) as [bs rest|e] eqn:E; [|destruct e; discriminate].
-  intros [= <-]. exists rest. eapply read_mpub_inv; eassumption.
+  destruct (read_mpub max_msg max_body (take max_body body)) as [bs rest|e] eqn:E; [|destruct e; discriminate].
+  intros [= <-]. destruct (read_mpub_inv _ _ _ _ _ (wf_take max_body body Hwf) E) as (Es & Hb).
+  exists (rest ++ drop max_body body). split; [|split; [assumption|]].
+  - rewrite (app_assoc (encode_mpub bs) rest), <- Es. symmetry. apply take_drop.
+  - assert (Hl : len (take max_body body) <= Z.max 0 max_body).
+    { rewrite take_firstn. unfold len. pose proof (firstn_le_length (Z.to_nat max_body) body). lia. }
+    rewrite Es, len_app in Hl. pose proof (len_nonneg rest). lia.
 Qed.
 
 (* ================================================================== message ids *)
